@@ -333,12 +333,14 @@ theorem GB.le_of_eq {a b : GB} (h : a = b) : GB.le a b := h ▸ GB.le_refl a
 
 theorem ThreadInv.new (g : GB) (proc : Nat) (tid : IdStr) (start : Nat) (main : Bool) (hp : proc < g.nProcs) :
     ThreadInv g { process := proc, tid := tid, start := start, isMain := main } := by
-  refine ⟨⟨fun _ hx => (nomatch hx), fun _ hx => (nomatch hx)⟩, ?_, ?_, ?_, fun _ hx => (nomatch hx),
+  refine ⟨⟨⟨fun _ hx => (nomatch hx), fun _ hx => (nomatch hx)⟩, fun _ hx => (nomatch hx)⟩, ?_, ?_, ?_,
+    fun _ hx => (nomatch hx),
     (by intro s hs; cases hs), (by intro hz; cases hz), ?_, hp, (by intro st hst; cases hst)⟩
   · exact ⟨⟨rfl, rfl, rfl, rfl, fun _ hx => (nomatch hx), fun _ hx => (nomatch hx), fun _ hx => (nomatch hx)⟩,
-      ⟨rfl, fun _ hx => (nomatch hx), fun _ hx => (nomatch hx), fun _ hx => (nomatch hx)⟩,
+      ⟨rfl, fun _ hx => (nomatch hx), fun _ hx => (nomatch hx), fun _ hx => (nomatch hx), fun _ hx => (nomatch hx)⟩,
       rfl, rfl, rfl, rfl, rfl, rfl, rfl, rfl, fun _ hx => (nomatch hx), fun _ hx => (nomatch hx),
-      fun _ hx => (nomatch hx), List.nodup_nil⟩
+      fun _ hx => (nomatch hx), List.nodup_nil,
+      ⟨by intro j fk hj; simp at hj, by intro i k hk; simp at hk⟩⟩
   · exact ⟨rfl, rfl, rfl, fun _ hx => (nomatch hx), fun _ hx => (nomatch hx), fun _ hx => (nomatch hx)⟩
   · exact ⟨rfl, fun _ hx => (nomatch hx), (by intro i q hq; simp at hq), fun _ hx => (nomatch hx), StCanon.empty⟩
   · exact ⟨rfl, rfl, rfl, rfl, fun _ hx => (nomatch hx), fun _ hx => (nomatch hx), fun _ hx => (nomatch hx),
